@@ -16,6 +16,10 @@ for sid in ids:
     patch = f'{VERIF}/seeded/{sid}/patch.diff'
     r = subprocess.run(['git', '-C', '/repo', 'apply', patch], capture_output=True, text=True)
     if r.returncode != 0:
+        # the seed was made before a fix: commit touched neighbouring lines: retry with reduced context
+        r = subprocess.run(['git', '-C', '/repo', 'apply', '-C1', '--recount', patch], capture_output=True, text=True)
+    if r.returncode != 0:
+        print(sid, 'patch does not apply:', r.stderr.strip()[:200], flush=True)
         rows.append((sid, '-', 'patch does not apply', '')); continue
     try:
         for p in ps:
